@@ -996,7 +996,7 @@ func runR_C14(c *Ctx) {
 	// membership is decided by derived Equal, and unique finds candidates by derived Hash (whose map traversal relies on the
 	// sort and compare plugins): their rules are part of "pairwise non-Equal" / "same set under Equal"
 	equalCoreRules(c, false) // C14 is stated relative to derived Equal, whatever it considers equal
-	hashCoreRules(c, false)
+	hashCoreRules(c, true)   // with the float leaf rule: two Equal elements (+0 and -0) must fall into the same bucket for unique to drop one
 	sortLessRules(c)
 	compareCoreRules(c, false)
 	g9Methods(c, methodSpec{"hash.hasHashMethod", "Hash", 0, 1, types.Invalid}, methodSpec{"equal.equalMethodInputParam", "Equal", 1, 1, types.Bool})
